@@ -207,7 +207,7 @@ def check(ctx, fx):
 
     # ---- P7: every verdict of ensure_tables is justified by what was observed ---------------
     # A caller that sees IN_PROGRESS must wait: `true` only after observing READY (or having published),
-    # `false` only after observing FAILED, in the winner's own failure branches, or after the bounded spin.
+    # `false` only after observing FAILED or in the winner's own failure branches (the bounded spin's give-up is finding F19).
     rets = 0
     loop_conds = [b for b in ens["blocks"] if b["term"].get("kind") in ("ForStmt", "WhileStmt")]
     after_loop = set()
@@ -235,9 +235,17 @@ def check(ctx, fx):
                 ctx.check("P7", key, saw_ready or (won and published), "after observing READY / after publishing",
                           "returns true without having observed kTablesReady on every path (and without being the "
                           "thread that just published): table pointers may not be visible yet", where=where)
+            elif val is False and timeout and not (saw_failed or won):
+                # the waiter's spin budget ran out while the state was still IN_PROGRESS
+                ctx.fail("P7", "ensure_tables: `return false` after the spin-wait loop ran out",
+                         "a waiter that has spun kTablesSpinLimit times while the initialising thread is still IN_PROGRESS "
+                         "returns false: the tables are reported unavailable although initialisation neither failed nor "
+                         "finished, so a call that succeeds in a single-threaded run fails (parse error for an IDN host, "
+                         "to_unicode returning its input) when the winner is descheduled for longer than the spin budget",
+                         where=where)
             elif val is False:
-                ctx.check("P7", key, saw_failed or won or timeout,
-                          "after observing FAILED / in the initialising thread's own failure branch / after the bounded spin",
+                ctx.check("P7", key, saw_failed or won,
+                          "after observing FAILED / in the initialising thread's own failure branch",
                           "returns false although neither kTablesFailed was observed nor this thread's own initialisation "
                           "failed: a thread arriving while another one is still initialising (IN_PROGRESS) is told the "
                           "tables are unavailable instead of waiting", where=where)
